@@ -21,11 +21,16 @@ from .simloop import Sim
 SHM = "/dev/shm" if _os.path.isdir("/dev/shm") and _os.access("/dev/shm", _os.W_OK) else "/var/tmp"
 
 
+class SimKeyboardInterrupt(KeyboardInterrupt):
+    """An injected Ctrl-C (a BaseException that is not an Exception): the most ordinary way a long
+    save is interrupted.  A subclass, so that the harness never swallows a real one."""
+
+
 def _injected(kind="ENOSPC"):
-    """The injected failure: OSError with a given errno, or another Exception type by name."""
+    """The injected failure: OSError with a given errno, or another exception type by name."""
     other = {"ValueError": ValueError, "RuntimeError": RuntimeError, "MemoryError": MemoryError,
              "TypeError": TypeError, "KeyError": KeyError, "PermissionError": PermissionError,
-             "TimeoutError": TimeoutError}
+             "TimeoutError": TimeoutError, "KeyboardInterrupt": SimKeyboardInterrupt}
     if kind in other:
         return other[kind](f"injected {kind}")
     code = getattr(errno, kind, errno.EIO)
